@@ -13,7 +13,7 @@ ID = 'C01'
 BOUNDS = {'quick': 4, 'thorough': 6}
 OPS = tuple(o for o in sh.LOGICAL if o != 'XOR')
 # name classes a quoted UVL identifier can carry (no '"', '.', CR/LF)
-UVL_NAME_CLASSES = ('digit', 'underscore', 'space', 'punct', 'uvlkw', 'opword', 'nonascii', 'xml')
+UVL_NAME_CLASSES = ('digit', 'underscore', 'space', 'punct', 'uvlkw', 'opword', 'nonascii', 'xml', 'ws-edge')
 
 
 class UVLFormat(rt.Format):
